@@ -106,7 +106,7 @@ func (b *bitMask256) toTypes(reg *registry) []ID {
 	types := make([]ID, count)
 
 	totalIDs := reg.Count()
-	bins := totalIDs/wordSize + 1
+	bins := (totalIDs + wordSize - 1) / wordSize
 	bits := totalIDs % wordSize
 
 	idx := 0
@@ -115,7 +115,7 @@ func (b *bitMask256) toTypes(reg *registry) []ID {
 			continue
 		}
 		cnt := wordSize
-		if i == bins-1 {
+		if i == bins-1 && bits != 0 {
 			cnt = bits
 		}
 		for j := range cnt {
